@@ -21,7 +21,21 @@ def check(run):
     conflict = '{"t1", "t2", "t3", "t6", "t4", "w1", "w2", "w3", "w4", "w5", "w6", "c1", "p11", "x1", "x2", "p1", "p2", "p3", "p4", "p5", "p7", "p6", "p9", "p10"}'
     plans = [dict(num=120, ops=20, txs=conflict, driver_args=["-direct", "35"])] if quick else \
             [dict(num=1500, ops=20, txs=conflict, driver_args=["-direct", "35"]), dict(num=500, ops=30, maxb=9)]
+    # pools of readers and writers of one key, so that a played block often supersedes a version a pending transaction read
+    plans.append(dict(num=60 if quick else 400, ops=14, txs='{"p1", "p2", "p3", "p5", "p12", "x1", "t1", "t2"}', driver_args=["-direct", "35"]))
     groups = xc.gen(run, plans)
+    # directed histories (fixed finding KF_PlayKeepsStaleReader and its variants): a pending pure reader of k1@p1 while a
+    # peer block overwrites / deletes k1 through a transaction that is pending on this node too
+    S = lambda t: {"op": "submit", "res": "admit", "t": t}
+    directed = []
+    for w in ("p2", "p3", "p12", "x1"):
+        directed.append([S("p1"), S("p5"), S(w), {"op": "mkblock", "p": 1, "res": "ok", "txs": ["p1", w]},
+                         {"b": 2, "op": "play", "res": "ok"}, {"op": "submit", "res": "stale", "t": "p5"}])
+        directed.append([S("p1"), {"op": "mkblock", "p": 1, "res": "ok", "txs": ["p1"]}, {"b": 2, "op": "play", "res": "ok"},
+                         S("p5"), S(w), {"op": "mkblock", "p": 2, "res": "ok", "txs": [w]}, {"b": 3, "op": "play", "res": "ok"},
+                         {"op": "submit", "res": "stale", "t": "p5"}, {"op": "restart", "res": "ok"}])
+    groups[0][1].extend(directed)
+    run.cov["directed_histories"] = len(directed)
     xc.replay_validate(run, groups)
     # the ledger's part of the property: a transaction that is on the main chain already is not confirmed again in a block
     # that joins the main chain (ErrTxDuplicated, at the tip and below the fork point of a trunk switch)
